@@ -25,6 +25,10 @@ RELATED = {
 }
 
 
+# changes whose effect belongs to another property's check (a shallow container clone is C10's / C04's business)
+EXTRA = {"C03-I": ["C03", "C10", "C04"], "C10-J": ["C10", "C13"]}
+
+
 def sh(cmd, cwd=None, env=None, timeout=3600):
     p = subprocess.run(cmd, cwd=cwd, env=env, capture_output=True, text=True, timeout=timeout)
     return p.returncode, (p.stdout + p.stderr)
@@ -55,7 +59,7 @@ def one(seed, suite=True, njobs=4):
             out["suite"] = o.strip().splitlines()[-1] if o.strip() else "?"
             out["suite_ok"] = rc == 0
         checks = {}
-        for c in RELATED.get(prop, [prop]):
+        for c in EXTRA.get(seed, RELATED.get(prop, [prop])):
             env2 = dict(os.environ, VF_REPO=wt, VF_PAR="8")
             rc, o = sh([os.path.join(HERE, "check"), c, "--tier", "quick"], env=env2, timeout=3600)
             mech = [l.strip() for l in o.splitlines() if l.strip().startswith("mechanism:")]
